@@ -29,6 +29,8 @@ CONSTANTS
   TrampFlushed = TRUE
   Regen = FALSE
   SavedFrom = "install"
+  ForeignReuse = FALSE
+  AllocAt = "hint"
   MaxLives = 2
 ACTION_CONSTRAINT AtomicAC
 INVARIANT Emit
